@@ -40,9 +40,10 @@ class C02(Prop):
     def streams(self, tier, rng):
         yield "totality", gen_total.cases(tier, rng, "t")
         yield "totality-scale", gen_total.scale_cases(tier, "s")
+        yield "totality-stack", gen_total.stack_cases(tier, "k")
 
     def same(self, stream, model, impl):
-        if stream == "totality-scale":
+        if stream in ("totality-scale", "totality-stack"):
             return True
         if model in ("HANG", "PANIC") or impl in ("HANG", "PANIC", "ABORT", "MISSING"):
             return model == impl
@@ -53,7 +54,7 @@ class C02(Prop):
         if impl in ("PANIC", "HANG", "ABORT", "MISSING"):
             return "implementation " + impl
         r = rec_fields(impl)
-        if stream == "totality":
+        if stream in ("totality", "totality-stack"):
             bad = [k for k, v in r.items() if v not in ("OK", "ERR")]
             return ("entry point(s) " + ",".join(bad) + " did not return a value or an error") if bad else None
         for k, v in r.items():
